@@ -52,7 +52,7 @@ def intArg (args : List String) (i : Nat) : Int := ((args.getD i "0").toInt?).ge
     D:<sid>:<len>:<pad|->:<es01>
     H:<sid>:<r<status>,<body>,<reqLen>,<incr01>|x>:<es01>:<dep|->:<padBad01>:<contBad01>
     C:<sid>   U:<type>   X:<sid> (PUSH_PROMISE)   O (oversize)   F (32nd CONTINUATION of a block)
-    Z:<sid>:<len>:<prid>:<prio> (PRIORITY_UPDATE)     P: optional 5th field = the 8 octets (hex)
+    Z:<sid>:<len>:<prid>:<field hex> (PRIORITY_UPDATE)     P: optional 5th field = the 8 octets (hex)
     H kind: optional 5th number 1 = response body is a file -/
 def parseFrame (t : String) : Option FrameIn :=
   let a := t.splitOn ":"
@@ -70,7 +70,9 @@ def parseFrame (t : String) : Option FrameIn :=
             (match a[4]? with
              | some h => (B.ofHex h).getD []
              | none => List.replicate (natArg a 3) (112 : UInt8)))
-  | some "Z" => some (.priorityUpdate (natArg a 1) (natArg a 2) (natArg a 3) (natArg a 4))
+  | some "Z" =>
+    -- Z:<sid>:<len>:<prid>:<Priority field value, hex>
+    some (.priorityUpdate (natArg a 1) (natArg a 2) (natArg a 3) (parsePrio ((B.ofHex (a.getD 4 "-")).getD [])))
   | some "W" => some (.windowUpdate (natArg a 1) (natArg a 2) (natArg a 3))
   | some "R" => some (.rstStream (natArg a 1) (natArg a 2) (natArg a 3))
   | some "Y" => some (.priority (natArg a 1) (natArg a 2) (natArg a 3))
@@ -171,6 +173,8 @@ def h2Line : List String → String
   | "h2" :: "noack" :: evs => String.intercalate " / " (h2Events evs { sentSettings := true } [] [])
   | "h2" :: evs => String.intercalate " / " (h2Events evs {} [] [])
   | "h2b" :: args => h2bLine args
+  | ["hsplit", fsize, n] =>
+    String.intercalate "+" ((hpackSplit ((fsize.toNat?).getD 16384) ((n.toNat?).getD 0) ((n.toNat?).getD 0)).map toString)
   | _ => "bad-op"
 
 end Driver
